@@ -222,4 +222,532 @@ theorem installVar_step (nv : Nat) (s : Slots) (p : Nat) (op : Op)
   · simp only [h.hpr, List.reverse_cons, List.map_append, List.map_cons, List.map_nil, hlast]
   · exact Or.inr trivial
 
+
+theorem prevOcc_upd_of_le {P : Nat → Bool} {p q : Nat} (b : Bool) (h : q ≤ p) :
+    prevOcc (upd P p b) q = prevOcc P q := by
+  cases h2 : prevOcc P q <;> chain_finish
+
+theorem installVarFold_g (p : Nat) (l : List (Nat × Nat))
+    (acc : FastOps × List (Option Nat) × List (Option Nat) × List (Option PRel)) :
+    (l.foldl (FastOps.installVarStep p) acc).1.g = acc.1.g := by
+  induction l generalizing acc with
+  | nil => rfl
+  | cons x t ih =>
+    rw [List.foldl_cons, ih]
+    simp only [FastOps.installVarStep, FastOps.installVarWrite_g]
+
+theorem staleP_zip (a b : Option Nat) (h : a.isSome = b.isSome) :
+    staleP (zipOpt a b) = a.map (fun x => (x, x)) := by
+  cases a <;> cases b <;> simp_all [staleP, zipOpt]
+
+theorem staleV_zip (a b : Option PRel) (h : a.isSome = b.isSome) :
+    staleV (zipOpt a b) = a.map (fun x => (x, x)) := by
+  cases a <;> cases b <;> simp_all [staleV, zipOpt]
+
+theorem precanon_g (nv : Nat) (s : Slots) :
+    (precanon nv s).g = (canonG none s).setPEnds ((firstOcc (occ s) s.length).map (fun x => (x, x))) := by
+  unfold precanon canonEnds
+  rw [staleP_zip _ _ first_some_iff_last_some]
+  simp only [FastOps.g, FastOps.setPEnds, canonG, canon]
+
+/-- lists the step keeps: `last_vars`, `last_rels` -/
+def LV (nv : Nat) (s : Slots) : List (Option Nat) := (List.range nv).map (fun w => (lastRel s w).map (·.p))
+def LR (nv : Nat) (s : Slots) : List (Option Nat) := (List.range nv).map (fun w => (lastRel s w).map (·.relv))
+
+/-- one step of `clear_and_install_ops`: appending an op beyond every occupied slot -/
+theorem installStep_precanon (nv : Nat) (s : Slots) (p : Nat) (op : Op)
+    (hpL : p < s.length) (htail : ∀ k, p ≤ k → slotAt s k = none)
+    (hwf : WF nv none s) (hok : OpOK nv none op) :
+    FastOps.installStep (precanon nv s, lastOcc (occ s) s.length, LV nv s, LR nv s) (p, op)
+      = (precanon nv (s.set p (some op)), lastOcc (occ (s.set p (some op))) (s.set p (some op)).length,
+          LV nv (s.set p (some op)), LR nv (s.set p (some op))) := by
+  have hsp : slotAt s p = none := htail p (Nat.le_refl p)
+  obtain ⟨hne, hnodup, hlt, hbond⟩ := hok
+  have hok' : OpOK nv none op := ⟨hne, hnodup, hlt, hbond⟩
+  have hP' := occ_set s p (some op) hpL
+  simp only [Option.isSome_some] at hP'
+  have hocc : occ s p = false := occ_false_of_slotAt hsp
+  have htailO : ∀ k, p ≤ k → k < s.length → occ s k = false := by
+    intro k hk _; exact occ_false_of_slotAt (htail k hk)
+  have htailV : ∀ w k, p ≤ k → k < s.length → occV s w k = false := by
+    intro w k hk _; unfold occV; rw [htail k hk]
+  have hprevlast : prevOcc (occ s) p = lastOcc (occ s) s.length := prevOcc_eq_last htailO (by omega)
+  have hnextnone : nextOcc (occ s) s.length p = none := nextOcc_none_of_tail htailO
+  have hlastV : ∀ w, lastRel s w = prevRel s w p := by
+    intro w; unfold lastRel prevRel; rw [prevOcc_eq_last (htailV w) (by omega)]
+  have hnextV : ∀ w, nextOcc (occV s w) s.length p = none := fun w => nextOcc_none_of_tail (htailV w)
+  have hlt_p : ∀ q oq, slotAt s q = some oq → q < p := by
+    intro q oq hq
+    by_cases h : q < p
+    · exact h
+    · rw [htail q (by omega)] at hq; cases hq
+  -- the inner loop
+  unfold FastOps.installStep
+  simp only []
+  generalize hc1 : FastOps.installLinkLast (precanon nv s) (lastOcc (occ s) s.length) p = c1
+  have hc1n : ∀ q, c1.nfv q = (precanon nv s).nfv q := by
+    intro q; rw [← hc1]; unfold FastOps.installLinkLast; cases lastOcc (occ s) s.length <;> simp
+  have hc1p : ∀ q, c1.pfv q = (precanon nv s).pfv q := by
+    intro q; rw [← hc1]; unfold FastOps.installLinkLast; cases lastOcc (occ s) s.length <;> simp
+  have hc1v : c1.varEnds = (precanon nv s).varEnds := by
+    rw [← hc1]; unfold FastOps.installLinkLast; cases lastOcc (occ s) s.length <;> simp
+  have hpn : ∀ q, (precanon nv s).nfv q = (canon nv none s).nfv q := fun q => rfl
+  have hpp : ∀ q, (precanon nv s).pfv q = (canon nv none s).pfv q := fun q => rfl
+  have hbase : IL nv s p op [] (c1, LV nv s, LR nv s, []) := by
+    constructor
+    · intro q _
+      simp only [hc1n, hpn, nfv_canon]
+      cases slotAt s q with
+      | none => rfl
+      | some oq =>
+        simp only [Option.map_some]
+        congr 1
+        apply List.map_congr_left
+        intro w _
+        unfold nextRel nextRelI PI
+        simp only [List.not_mem_nil, if_false]
+        exact relcongr s p op hsp w _ (fun y hy => (nextOcc_gt hy).2.2)
+    · intro q _
+      simp only [hc1p, hpp, pfv_canon]
+    · simp only [hc1n, hpn, nfv_canon, hsp]; rfl
+    · simp only [hc1p, hpp, pfv_canon, hsp]; rfl
+    · simp only [hc1v]; simp [precanon]
+    · simp [LV]
+    · simp [LR]
+    · rfl
+    · exact Or.inr trivial
+  have hfold := fold_inv' (IL nv s p op) (FastOps.installVarStep p) (fun x => x.1)
+    (fun x => op.vars[x.2]? = some x.1)
+    (fun D st x hx hD h => installVar_step nv s p op hsp hpL htail hwf hok' D st x hx hD h)
+    op.vars.zipIdx [] (c1, LV nv s, LR nv s, []) (zipIdx_getElem? op.vars)
+    (by rw [List.zipIdx_map_fst]; exact hnodup) (by simp) hbase
+  rw [List.zipIdx_map_fst, List.append_nil] at hfold
+  have hfg := installVarFold_g p op.vars.zipIdx (c1, LV nv s, LR nv s, [])
+  generalize List.foldl (FastOps.installVarStep p) (c1, LV nv s, LR nv s, []) op.vars.zipIdx = r at hfold hfg ⊢
+  obtain ⟨c2, lv2, lr2, pr2⟩ := r
+  simp only at hfg
+  have hL2 : c2.ops.length = s.length := by
+    have := congrArg (fun x => x.ops.length) hfg
+    simp only [FastOps.g_length] at this
+    rw [this, ← hc1]
+    unfold FastOps.installLinkLast
+    cases lastOcc (occ s) s.length <;> simp [precanon]
+  have hlastp : lastOcc (occ (s.set p (some op))) (s.set p (some op)).length = some p := by
+    rw [List.length_set, hP', lastOcc_insert hpL, hnextnone]; rfl
+  have hoccV' : ∀ w, occV (s.set p (some op)) w = PI s p op.vars w := occV_s1 s p op hsp hpL
+  -- tables
+  have hlv : lv2 = LV nv (s.set p (some op)) := by
+    have := hfold.hlv
+    simp only at this
+    rw [this]
+    unfold LV
+    apply List.map_congr_left
+    intro w _
+    unfold lastRel
+    rw [List.length_set, occV_set s p (some op) w hpL]
+    by_cases hw : w ∈ op.vars
+    · have hh : hasVar (some op) w = true := by simpa [hasVar] using hw
+      simp only [List.mem_reverse, hw, if_true, hh]
+      rw [lastOcc_insert hpL, hnextV w]
+      rfl
+    · have hh : hasVar (some op) w = false := by simpa [hasVar] using hw
+      simp only [List.mem_reverse, hw, if_false, hh]
+      rw [upd_self_eq (htailV w p (Nat.le_refl p) hpL)]
+      have := relcongr s p op hsp w (lastOcc (occV s w) s.length) (fun y hy => (lastOcc_mem hy).2)
+      unfold s1 at this
+      rw [← this]
+  have hlr : lr2 = LR nv (s.set p (some op)) := by
+    have := hfold.hlr
+    simp only at this
+    rw [this]
+    unfold LR
+    apply List.map_congr_left
+    intro w _
+    unfold lastRel
+    rw [List.length_set, occV_set s p (some op) w hpL]
+    by_cases hw : w ∈ op.vars
+    · have hh : hasVar (some op) w = true := by simpa [hasVar] using hw
+      simp only [List.mem_reverse, hw, if_true, hh]
+      rw [lastOcc_insert hpL, hnextV w]
+      simp [relAt, slotAt_set, hpL]
+    · have hh : hasVar (some op) w = false := by simpa [hasVar] using hw
+      simp only [List.mem_reverse, hw, if_false, hh]
+      rw [upd_self_eq (htailV w p (Nat.le_refl p) hpL)]
+      have := relcongr s p op hsp w (lastOcc (occV s w) s.length) (fun y hy => (lastOcc_mem hy).2)
+      unfold s1 at this
+      rw [← this]
+  rw [hlastp, hlv, hlr]
+  congr 1
+  -- the container
+  generalize hnode : ({ op := op, previousP := lastOcc (occ s) s.length, nextP := none, previousForVars := pr2, nextForVars := List.replicate op.vars.length none } : Node) = nodeNew
+  have hng : nodeNew.g = canonNodeG (s.set p (some op)) p op := by
+    rw [← hnode]
+    simp only [Node.g, canonNodeG, List.length_set, hP', prevOcc_upd_self, nextOcc_upd_self, hprevlast,
+      hnextnone]
+  have hnn : nodeNew.nextForVars = List.replicate op.vars.length none := by rw [← hnode]
+  have hnp : nodeNew.previousForVars = pr2 := by rw [← hnode]
+  apply FastOps.eq_of_g_v
+  · -- global view
+    simp only [FastOps.setN_g, FastOps.setOp_g, hfg]
+    rw [← hc1]
+    have hlink : (FastOps.installLinkLast (precanon nv s) (lastOcc (occ s) s.length) p).g
+        = FastOps.installLinkLast (precanon nv s).g (lastOcc (occ s) s.length) p := by
+      unfold FastOps.installLinkLast
+      cases lastOcc (occ s) s.length <;> simp
+    rw [hlink, precanon_g, precanon_g]
+    generalize hX : FastOps.installLinkLast
+      ((canonG none s).setPEnds ((firstOcc (occ s) s.length).map (fun x => (x, x))))
+      (lastOcc (occ s) s.length) p = X
+    have hXlen : X.ops.length = s.length := by
+      rw [← hX]; unfold FastOps.installLinkLast; cases lastOcc (occ s) s.length <;> simp
+    have hXget : ∀ q, X.getNode q = ((canonG none s).getNode q).map (fun nd =>
+        if lastOcc (occ s) s.length = some q then { nd with nextP := some p } else nd) := by
+      intro q
+      rw [← hX]; unfold FastOps.installLinkLast
+      cases hlo : lastOcc (occ s) s.length with
+      | none => simp
+      | some lp =>
+        simp only [FastOps.getNode_setNextP, FastOps.getNode_setPEnds]
+        cases (canonG none s).getNode q with
+        | none => rfl
+        | some nd => by_cases e : lp = q <;> simp [e]
+    have hXn : X.n = countOps s := by
+      rw [← hX]; unfold FastOps.installLinkLast; cases lastOcc (occ s) s.length <;> simp
+    have hXpe : X.pEnds = match lastOcc (occ s) s.length with
+        | some _ => (firstOcc (occ s) s.length).map (fun x => (x, x))
+        | none => some (p, p) := by
+      rw [← hX]; unfold FastOps.installLinkLast; cases lastOcc (occ s) s.length <;> simp
+    have hXbc : X.bondCounters = none := by
+      rw [← hX]; unfold FastOps.installLinkLast; cases lastOcc (occ s) s.length <;> simp [canonG, canon, FastOps.g]
+    have hXve : X.varEnds = [] := by
+      rw [← hX]; unfold FastOps.installLinkLast; cases lastOcc (occ s) s.length <;> simp
+    have hc2n : c2.n = countOps s := by
+      have := congrArg FastOps.n hfg
+      simp only [FastOps.g_n] at this
+      rw [this, ← hc1]
+      unfold FastOps.installLinkLast
+      cases lastOcc (occ s) s.length <;> simp [precanon, canon]
+    apply FastOps.ext'
+    · simp [hXlen]
+    · intro q _
+      simp only [FastOps.getNode_setN, FastOps.getNode_setOp, FastOps.getNode_setPEnds, hXlen, hXget,
+        getNode_canonG, slotAt_set, Option.map_some]
+      by_cases hqp : p = q
+      · subst hqp
+        simp only [hpL, and_self, if_true, Option.map_some, hng]
+      · simp only [hqp, false_and, if_false]
+        cases hsq : slotAt s q with
+        | none => rfl
+        | some oq =>
+          have hq := occ_of_slotAt hsq
+          have hqL := slotAt_lt hsq
+          have hqp' : q ≠ p := fun e => hqp e.symm
+          simp only [Option.map_some, canonNodeG, List.length_set, hP']
+          rw [prevOcc_insert hq hqp' hqL, nextOcc_insert hq hqp' hpL, hnextnone, hprevlast]
+          by_cases e : lastOcc (occ s) s.length = some q <;> simp [e]
+    · have := countOps_set s p (some op) hpL
+      simp [hocc] at this
+      simp [hc2n]; omega
+    · simp only [FastOps.pEnds_setN, FastOps.pEnds_setOp, hXpe, FastOps.pEnds_setPEnds']
+      rw [List.length_set, hP', firstOcc_insert hpL, hprevlast]
+      cases hlo : lastOcc (occ s) s.length with
+      | none => simp
+      | some lp =>
+        obtain ⟨f, hf⟩ : ∃ f, firstOcc (occ s) s.length = some f := by
+          have := @first_some_iff_last_some (occ s) s.length
+          rw [hlo] at this
+          cases h : firstOcc (occ s) s.length with
+          | none => rw [h] at this; cases this
+          | some f => exact ⟨f, rfl⟩
+        simp [hf]
+    · simp [hXve]
+    · simp [hXbc, canonG, canon, FastOps.g]
+  · -- next_for_vars
+    intro q
+    have hR : (precanon nv (s.set p (some op))).nfv q = (canon nv none (s.set p (some op))).nfv q := rfl
+    rw [hR, nfv_canon]
+    simp only [FastOps.nfv_setN, FastOps.nfv_setOp, hL2, slotAt_set]
+    by_cases hq : p = q
+    · subst hq
+      simp only [hpL, and_self, if_true, Option.map_some]
+      rw [hnn]
+      congr 1
+      apply List.ext_getElem?
+      intro i
+      simp only [List.getElem?_replicate, List.getElem?_map]
+      by_cases hi : i < op.vars.length
+      · simp only [hi, if_true, List.getElem?_eq_getElem hi, Option.map_some]
+        congr 1
+        unfold nextRel
+        rw [List.length_set, occV_set s p (some op) _ hpL, nextOcc_upd_self, hnextV]
+        rfl
+      · simp [hi, List.getElem?_eq_none (Nat.le_of_not_lt hi)]
+    · simp only [hq, false_and, if_false]
+      have := hfold.hn q (fun e => hq e.symm)
+      simp only at this
+      rw [this]
+      cases slotAt s q with
+      | none => rfl
+      | some oq =>
+        simp only [Option.map_some]
+        congr 1
+        apply List.map_congr_left
+        intro w _
+        unfold nextRelI nextRel
+        rw [List.length_set, hoccV']
+        unfold PI
+        simp
+  · -- previous_for_vars
+    intro q
+    have hR : (precanon nv (s.set p (some op))).pfv q = (canon nv none (s.set p (some op))).pfv q := rfl
+    rw [hR, pfv_canon]
+    simp only [FastOps.pfv_setN, FastOps.pfv_setOp, hL2, slotAt_set]
+    by_cases hq : p = q
+    · subst hq
+      simp only [hpL, and_self, if_true, Option.map_some]
+      rw [hnp]
+      congr 1
+      have := hfold.hpr
+      simp only at this
+      rw [this, List.reverse_reverse]
+      apply List.map_congr_left
+      intro w _
+      rw [hlastV w, prevRel_set_self s p (some op) w hpL]
+    · simp only [hq, false_and, if_false]
+      have := hfold.hp q (fun e => hq e.symm)
+      simp only at this
+      rw [this]
+      cases hsq : slotAt s q with
+      | none => rfl
+      | some oq =>
+        simp only [Option.map_some]
+        congr 1
+        apply List.map_congr_left
+        intro w _
+        have hqp := hlt_p q oq hsq
+        unfold prevRel
+        rw [occV_set s p (some op) w hpL, prevOcc_upd_of_le _ (by omega)]
+        apply map_relAt_congr
+        intro y hy e
+        subst e
+        have := (prevOcc_lt hy).1
+        omega
+  · -- var_ends
+    have := hfold.hv
+    simp only at this
+    simp only [FastOps.varEnds_setN, FastOps.varEnds_setOp, this, precanon]
+    apply List.map_congr_left
+    intro w _
+    unfold canonVarEnd
+    rw [staleV_zip _ _ (firstRel_isSome (s.set p (some op)) w)]
+    unfold firstRel
+    rw [List.length_set, occV_set s p (some op) w hpL]
+    by_cases hw : w ∈ op.vars
+    · have hh : hasVar (some op) w = true := by simpa [hasVar] using hw
+      simp only [List.mem_reverse, hw, if_true, hh]
+      rw [firstOcc_insert hpL]
+      cases hpo : prevOcc (occV s w) p with
+      | none =>
+        have hf : firstOcc (occV s w) s.length = none := by
+          rw [firstOcc_none_iff]
+          intro j hj
+          by_cases hjp : j < p
+          · exact (prevOcc_none_iff.mp hpo) j hjp
+          · exact htailV w j (by omega) hj
+        simp [hf]
+      | some y =>
+        obtain ⟨f, hf⟩ := first_some_of_prev_some (L := s.length) hpo hpL
+        have hfne : f ≠ p := by
+          intro e; subst e
+          have := (firstOcc_mem hf).2
+          rw [htailV w f (Nat.le_refl f) hpL] at this; cases this
+        simp [hf, relAt_set_ne s p (some op) w f hfne]
+    · have hh : hasVar (some op) w = false := by simpa [hasVar] using hw
+      simp only [List.mem_reverse, hw, if_false, hh]
+      rw [upd_self_eq (htailV w p (Nat.le_refl p) hpL)]
+      have e := staleV_zip (firstRel s w) (lastRel s w) (firstRel_isSome s w)
+      unfold firstRel at e
+      rw [e]
+      have := relcongr s p op hsp w (firstOcc (occV s w) s.length) (fun y hy => (firstOcc_mem hy).2)
+      unfold s1 at this
+      rw [← this]
+
+
+/-- the naive slot array after writing an op list -/
+def installA (s : Slots) (l : List (Nat × Op)) : Slots :=
+  l.foldl (fun s po => s.set po.1 (some po.2)) s
+
+theorem installA_length (s : Slots) (l : List (Nat × Op)) : (installA s l).length = s.length := by
+  induction l generalizing s with
+  | nil => rfl
+  | cons x t ih => simp only [installA, List.foldl_cons] at ih ⊢; rw [ih]; simp
+
+/-- the fold of `clear_and_install_ops` -/
+theorem installFold_precanon (nv : Nat) :
+    ∀ (l : List (Nat × Op)) (s : Slots), WF nv none s →
+      (l.map (·.1)).Pairwise (· < ·) → (∀ x ∈ l, x.1 < s.length ∧ OpOK nv none x.2) →
+      (∀ x ∈ l, ∀ k, x.1 ≤ k → slotAt s k = none) →
+      l.foldl FastOps.installStep (precanon nv s, lastOcc (occ s) s.length, LV nv s, LR nv s)
+        = (precanon nv (installA s l), lastOcc (occ (installA s l)) (installA s l).length,
+            LV nv (installA s l), LR nv (installA s l)) ∧ WF nv none (installA s l) := by
+  intro l
+  induction l with
+  | nil => intro s hwf _ _ _; exact ⟨rfl, hwf⟩
+  | cons x t ih =>
+    intro s hwf hsorted hall htail
+    obtain ⟨p, op⟩ := x
+    simp only [List.map_cons, List.pairwise_cons] at hsorted
+    obtain ⟨hpL, hok⟩ := hall (p, op) (by simp)
+    have hstep := installStep_precanon nv s p op hpL (htail (p, op) (by simp)) hwf hok
+    simp only [List.foldl_cons, installA]
+    rw [hstep]
+    have hwf' : WF nv none (s.set p (some op)) :=
+      WF_set nv none s p (some op) hwf (fun o ho => by cases ho; exact hok)
+    have := ih (s.set p (some op)) hwf' hsorted.2
+      (by intro y hy; rw [List.length_set]; exact hall y (by simp [hy]))
+      (by
+        intro y hy k hk
+        have hlt : p < y.1 := hsorted.1 y.1 (List.mem_map_of_mem hy)
+        rw [slotAt_set]
+        have : ¬ p = k := by omega
+        simp only [this, false_and, if_false]
+        exact htail (p, op) (by simp) k (by omega))
+    simp only [installA] at this
+    exact this
+
+theorem slotAt_replicate_none (L q : Nat) : slotAt (List.replicate L none) q = none := by
+  unfold slotAt
+  rw [List.getElem?_replicate]
+  split <;> rfl
+
+theorem precanon_empty (nv L : Nat) :
+    precanon nv (List.replicate L none)
+      = { ops := List.replicate L none, n := 0, pEnds := none, varEnds := List.replicate nv none,
+          bondCounters := none } := by
+  have hocc : occ (List.replicate L none) = fun _ => false := by
+    funext q; unfold occ; rw [slotAt_replicate_none]; rfl
+  have hoccV : ∀ v, occV (List.replicate L none) v = fun _ => false := by
+    intro v; funext q; unfold occV; rw [slotAt_replicate_none]
+  have hf : ∀ (P : Nat → Bool) (n : Nat), P = (fun _ => false) → firstOcc P n = none := by
+    intro P n hP; subst hP; rw [firstOcc_none_iff]; intros; rfl
+  have hl : ∀ (P : Nat → Bool) (n : Nat), P = (fun _ => false) → lastOcc P n = none := by
+    intro P n hP; subst hP; rw [lastOcc_none_iff]; intros; rfl
+  unfold precanon
+  simp only [FastOps.setPEnds, canon, canonEnds, canonVarEnd, firstRel, lastRel, hf _ _ hocc, hl _ _ hocc,
+    hf _ _ (hoccV _), hl _ _ (hoccV _), zipOpt, staleP, staleV, Option.map_none, List.length_replicate]
+  congr 1
+  · apply List.ext_getElem?
+    intro i
+    simp only [List.getElem?_map, List.getElem?_replicate]
+    by_cases hi : i < L
+    · simp [hi, slotAt_replicate_none]
+    · simp [hi]
+  · simp [countOps]
+  · exact (FastOps.replicate_eq_range_map nv none).symm
+
+theorem max_le_foldl_max (l : List Nat) (a x : Nat) (h : x ∈ l ∨ x ≤ a) : x ≤ l.foldl max a := by
+  induction l generalizing a with
+  | nil =>
+    cases h with
+    | inl h => cases h
+    | inr h => exact h
+  | cons y t ih =>
+    simp only [List.foldl_cons]
+    apply ih
+    cases h with
+    | inl h =>
+      cases h with
+      | head => right; omega
+      | tail _ h => left; exact h
+    | inr h => right; omega
+
+namespace FastOps
+
+theorem clearForInstall_new (nv L : Nat) :
+    (FastOps.new nv none).clearForInstall L = precanon nv (List.replicate L none) := by
+  rw [precanon_empty]; simp [clearForInstall, FastOps.new]
+
+/-- the two final fix-ups turn the stale ends into the canonical ones -/
+theorem fixEndTails_precanon (nv : Nat) (s : Slots) :
+    fixEndTails (precanon nv s) (lastOcc (occ s) s.length) (LV nv s) (LR nv s) = canon nv none s := by
+  apply eq_of_g_v
+  · apply ext'
+    · simp [fixEndTails, precanon]
+    · intro q _; rfl
+    · rfl
+    · simp only [fixEndTails, g_pEnds, precanon, pEnds_setPEnds', canon, canonEnds]
+      have := @first_some_iff_last_some (occ s) s.length
+      cases h1 : firstOcc (occ s) s.length <;> cases h2 : lastOcc (occ s) s.length <;>
+        simp [h1, h2, zipOpt, staleP] at this ⊢
+    · rfl
+    · rfl
+  · intro q; rfl
+  · intro q; rfl
+  · simp only [fixEndTails, precanon, LV, LR, canon, varEnds_setPEnds]
+    apply List.ext_getElem?
+    intro i
+    simp only [List.getElem?_map]
+    by_cases hi : i < nv
+    · have hz : (((List.range nv).map (fun v => staleV (canonVarEnd s v))).zip
+          (((List.range nv).map (fun w => (lastRel s w).map (·.p))).zip
+            ((List.range nv).map (fun w => (lastRel s w).map (·.relv)))))[i]?
+          = some (staleV (canonVarEnd s i), (lastRel s i).map (·.p), (lastRel s i).map (·.relv)) := by
+        rw [List.getElem?_zip_eq_some]
+        refine ⟨by simp [List.getElem?_map, List.getElem?_range hi], ?_⟩
+        rw [List.getElem?_zip_eq_some]
+        exact ⟨by simp [List.getElem?_map, List.getElem?_range hi],
+          by simp [List.getElem?_map, List.getElem?_range hi]⟩
+      rw [hz, List.getElem?_range hi]
+      simp only [Option.map_some]
+      congr 1
+      unfold canonVarEnd
+      have := firstRel_isSome s i
+      cases h1 : firstRel s i <;> cases h2 : lastRel s i <;> simp [h1, h2, zipOpt, staleV] at this ⊢
+    · have hn : (((List.range nv).map (fun v => staleV (canonVarEnd s v))).zip
+          (((List.range nv).map (fun w => (lastRel s w).map (·.p))).zip
+            ((List.range nv).map (fun w => (lastRel s w).map (·.relv)))))[i]? = none := by
+        apply List.getElem?_eq_none
+        simp; omega
+      rw [hn, List.getElem?_eq_none (by simpa using Nat.le_of_not_lt hi)]
+      rfl
+
+/-- `FastOps::new_from_ops` on a strictly increasing list of well-formed ops builds the canonical
+container of the naive slot array -/
+theorem newFromOps_canon (nv : Nat) (l : List (Nat × Op)) (hne : l ≠ [])
+    (hsorted : (l.map (·.1)).Pairwise (· < ·)) (hok : ∀ x ∈ l, OpOK nv none x.2) :
+    newFromOps nv l
+      = canon nv none (installA (List.replicate ((l.map (·.1)).foldl max 0 + 1) none) l) := by
+  unfold newFromOps clearAndInstallOps
+  have hemp : l.isEmpty = false := by cases l <;> simp_all
+  simp only [hemp, Bool.false_eq_true, if_false]
+  generalize hL : (l.map (·.1)).foldl max 0 + 1 = L
+  have hnv : (FastOps.new nv none).varEnds.length = nv := by simp [FastOps.new]
+  have hwf0 : WF nv none (List.replicate L none) := by
+    intro q op hq; rw [slotAt_replicate_none] at hq; cases hq
+  have hlast0 : lastOcc (occ (List.replicate L none)) (List.replicate L (none : Option Op)).length = none := by
+    rw [lastOcc_none_iff]; intro k _; unfold occ; rw [slotAt_replicate_none]; rfl
+  have hlastV0 : ∀ w, lastRel (List.replicate L none) w = none := by
+    intro w
+    unfold lastRel
+    have : lastOcc (occV (List.replicate L none) w) (List.replicate L (none : Option Op)).length = none := by
+      rw [lastOcc_none_iff]; intro k _; unfold occV; rw [slotAt_replicate_none]
+    rw [this]; rfl
+  have hLV0 : LV nv (List.replicate L none) = List.replicate nv none := by
+    unfold LV; simp only [hlastV0, Option.map_none]; exact (replicate_eq_range_map nv none).symm
+  have hLR0 : LR nv (List.replicate L none) = List.replicate nv none := by
+    unfold LR; simp only [hlastV0, Option.map_none]; exact (replicate_eq_range_map nv none).symm
+  rw [hnv, clearForInstall_new]
+  obtain ⟨hfold, _⟩ := installFold_precanon nv l (List.replicate L none) hwf0 hsorted
+    (by
+      intro x hx
+      refine ⟨?_, hok x hx⟩
+      rw [List.length_replicate, ← hL]
+      have := max_le_foldl_max (l.map (·.1)) 0 x.1 (Or.inl (List.mem_map_of_mem hx))
+      omega)
+    (by intro x _ k _; exact slotAt_replicate_none L k)
+  rw [hlast0, hLV0, hLR0] at hfold
+  rw [hfold]
+  exact fixEndTails_precanon nv _
+
+end FastOps
 end Qmc
